@@ -45,6 +45,7 @@ type visInfo struct {
 type Exec struct {
 	havocSeq int // ids naming unknown heaps (State.HavocID)
 	capObj   map[string]types.Object // ghost variables of `call f capture[label] e`
+	callArgExprs []ast.Expr // argument expressions of the call a call-site assertion is evaluated at
 	P       *Program
 	Ctx     *Ctx
 	S       *Sorts
@@ -429,6 +430,19 @@ func (e *Exec) computeBorrowed(fi *FuncInfo) {
 				}
 			}
 			b := fromHeap(src)
+			if !b {
+				// a pointer to a field (or element) of a pre-existing object: p := &x.f
+				if u, ok := src.(*ast.UnaryExpr); ok && u.Op == token.AND {
+					switch ux := u.X.(type) {
+					case *ast.SelectorExpr:
+						if sel := info.Selections[ux]; sel != nil && sel.Kind() == types.FieldVal {
+							b = true
+						}
+					case *ast.IndexExpr:
+						b = true
+					}
+				}
+			}
 			if !b {
 				if ri := rootIdent(src); ri != nil {
 					if ro := info.Uses[ri]; ro != nil && e.borrowed[ro] {
